@@ -14,6 +14,7 @@
   FACT(mul_zero_l,  ((a) == 0 && VP_FINITE(b)),                                    ((r) == 0)) \
   FACT(mul_zero_r,  ((b) == 0 && VP_FINITE(a)),                                    ((r) == 0)) \
   FACT(mul_nan,     (VP_ISNAN(a) || VP_ISNAN(b)),                                  (VP_ISNAN(r))) \
+  FACT(mul_zero_any, ((a) == 0 || (b) == 0),                                       ((r) == 0 || VP_ISNAN(r))) \
   FACT(mul_comm,    (1),                                                           (FEQ((r), (b) * (a))))
 
 /* division */
@@ -31,6 +32,7 @@
   VP_ASSUME_FACT(mul_nonneg,  ((a) >= 0 && (b) >= 0 && VP_FINITE(a) && VP_FINITE(b)), ((r) >= 0)) \
   VP_ASSUME_FACT(mul_zero_l,  ((a) == 0 && VP_FINITE(b)),                             ((r) == 0)) \
   VP_ASSUME_FACT(mul_zero_r,  ((b) == 0 && VP_FINITE(a)),                             ((r) == 0)) \
-  VP_ASSUME_FACT(mul_nan,     (VP_ISNAN(a) || VP_ISNAN(b)),                           (VP_ISNAN(r)))
+  VP_ASSUME_FACT(mul_nan,     (VP_ISNAN(a) || VP_ISNAN(b)),                           (VP_ISNAN(r))) \
+  VP_ASSUME_FACT(mul_zero_any, ((a) == 0 || (b) == 0),                                ((r) == 0 || VP_ISNAN(r)))
 #define VP_FDIV_FACTS(a, b, r) FDIV_FACTS(VP_ASSUME_FACT)
 #endif
